@@ -1,6 +1,7 @@
 package interpgen
 
 import (
+	"bytes"
 	"verif/harness/common"
 )
 
@@ -358,6 +359,16 @@ func ArithEdges(emit func(*Program), deep bool) {
 	}
 	encs := [][]byte{{}, {0x00}, {0x80}, {0x00, 0x00}, {0x00, 0x80}, {0x80, 0x00}, {0x00, 0x00, 0x80}, {0x00, 0x00, 0x00, 0x80}, {0x00, 0x00, 0x00, 0x00, 0x80},
 		{0x01, 0x00}, {0x01, 0x80}, {0x01, 0x00, 0x80}, {0x01, 0x00, 0x00}, {0x7f, 0x00}, {0x80, 0x00, 0x00}, {0x80, 0x80}, {0xff, 0x00, 0x80}, {0x2a, 0x80}, {0x81}, {0xff, 0xff, 0xff, 0xff, 0x00}}
+	// every encoding of zero (and of small numbers) as either operand of every binary arithmetic opcode: what counts
+	// is the NUMBER an operand decodes to, not how it is spelled (a divisor 80 or 0000 is zero)
+	for _, x := range encs {
+		for _, y := range [][]byte{{0x07}, {}, {0x80}, {0x81}} {
+			for _, op := range all {
+				one(x, y, op)
+				one(y, x, op)
+			}
+		}
+	}
 	for _, x := range encs {
 		for d := -1; d <= 1; d++ {
 			sz := len(x) + d
@@ -366,6 +377,44 @@ func ArithEdges(emit func(*Program), deep bool) {
 			}
 			for _, fl := range []uint32{FGenesis, 0, FGenesis | FMinimalData} {
 				emit((&Program{Unlock: []byte{}, Lock: catb(Push(x), Push(NumEnc(int64(sz))), []byte{0x80, 0x76, 0x81, 0x74, 0x75, 0x51}), Flags: fl, Kind: "num2bin-size"}).Fix())
+			}
+		}
+	}
+}
+
+// DeepStacks: one stack grows past the sizes at which a Go slice of items is reallocated (or runs into whatever
+// lies behind it) while the other stack holds items that are inspected afterwards: k marked items parked on the alt
+// stack, n items pushed on and dropped from the data stack (and the other way round), then every parked item compared.
+func DeepStacks(emit func(*Program)) {
+	rep := func(b []byte, n int) []byte { return bytes.Repeat(b, n) }
+	for _, k := range []int{1, 2, 31, 32, 33} {
+		for _, n := range []int{3, 31, 32, 33, 34, 63, 64, 65, 127, 128, 129, 255, 257} {
+			for _, fl := range []uint32{0, FGenesis} {
+				if (k > 2 && n > 129) || (fl == 0 && k+n > 900) {
+					continue
+				}
+				var park, check []byte
+				for i := 0; i < k; i++ {
+					park = append(park, Push([]byte{0xa0, byte(i)})...)
+					park = append(park, 0x6b)
+				}
+				for i := k - 1; i >= 0; i-- {
+					check = append(check, 0x6c)
+					check = append(check, Push([]byte{0xa0, byte(i)})...)
+					check = append(check, 0x88)
+				}
+				// data stack grows over parked alt items
+				emit((&Program{Unlock: []byte{}, Lock: catb(park, rep([]byte{0x57}, n), rep([]byte{0x75}, n), check, []byte{0x51}), Flags: fl, Kind: "deep-stacks/data-over-alt"}).Fix())
+				// alt stack grows over data items: the k marked items stay on the data stack, n items go to the alt stack and come back
+				var keep, check2 []byte
+				for i := 0; i < k; i++ {
+					keep = append(keep, Push([]byte{0xb0, byte(i)})...)
+				}
+				for i := k - 1; i >= 0; i-- {
+					check2 = append(check2, Push([]byte{0xb0, byte(i)})...)
+					check2 = append(check2, 0x88)
+				}
+				emit((&Program{Unlock: []byte{}, Lock: catb(keep, rep([]byte{0x57, 0x6b}, n), rep([]byte{0x6c, 0x75}, n), check2, []byte{0x51}), Flags: fl, Kind: "deep-stacks/alt-over-data"}).Fix())
 			}
 		}
 	}
@@ -501,6 +550,17 @@ func rep2(pat []byte, n int) []byte {
 // stack with its own alt stack, conditional state and opcode count, whether it ends normally or with a
 // top-level OP_RETURN (after Genesis); a zero-length script is skipped either way.
 func ScriptBoundary(emit func(*Program)) {
+	// the upgradable NOPs and the two that were given a meaning before Genesis (OP_CLTV, OP_CSV): executed and in a
+	// branch not taken, in both eras, under every combination of the flags that speak about them
+	for _, op := range []byte{0xb0, 0xb1, 0xb2, 0xb3, 0xb9} {
+		for _, fl := range []uint32{0, FDiscourageNops, FCLTV | FCSV, FDiscourageNops | FCLTV | FCSV} {
+			for _, era := range []uint32{0, FGenesis} {
+				for _, lock := range [][]byte{{0x51, op}, {op, 0x51}, {0x00, 0x63, op, 0x68, 0x51}, {0x51, 0x63, op, 0x68, 0x51}, {0x00, op, 0x51}} {
+					emit((&Program{Unlock: []byte{}, Lock: lock, Flags: fl | era, Kind: "script-boundary/nops"}).Fix())
+				}
+			}
+		}
+	}
 	ends := [][]byte{{}, {0x6a}, {0x6a, 0x01}, {0x6a, 0x6c}}
 	firsts := [][]byte{{0x51, 0x6b}, {0x51, 0x52, 0x6b}, {0x51, 0x6b, 0x52}, {0x51, 0x76, 0x6b}, {0x51}, {0x00, 0x6b, 0x51}, {0x51, 0x6b, 0x52, 0x6b}}
 	seconds := [][]byte{{0x6c}, {}, {0x51}, {0x6c, 0x6c}, {0x74}, {0x6c, 0x51}, {0x51, 0x6b, 0x6c}, {0x6a}, {0x6a, 0x6c}, {0x6b}}
